@@ -386,7 +386,11 @@ func (o *Obligation) BuildQuery() string {
 		b.WriteString(l)
 		b.WriteByte('\n')
 	}
-	b.WriteString("(assert (not " + o.Goal + "))\n")
+	if o.Cover {
+		b.WriteString("(assert " + o.Goal + ")\n")
+	} else {
+		b.WriteString("(assert (not " + o.Goal + "))\n")
+	}
 	return b.String()
 }
 
@@ -414,4 +418,36 @@ func tmpWorkdir() string {
 func writeFile(path, content string) {
 	os.MkdirAll(filepath.Dir(path), 0755)
 	os.WriteFile(path, []byte(content), 0644)
+}
+
+// runCover decides a reachability query: "sat" (reachable), "unsat" (dead or contradictory premises),
+// "sat-relaxed" (the quantifier-free relaxation is satisfiable; the full query was not decided), "unknown".
+// The quantifier-free relaxation goes first: it is fast, and its unsat is definitive (fewer premises).
+func runCover(o *Obligation, work string, seed int, fullTimeout int) string {
+	q := o.BuildQuery()
+	var kept []string
+	quant := false
+	for _, l := range strings.Split(q, "\n") {
+		if strings.Contains(l, "(forall ") || strings.Contains(l, "(exists ") {
+			quant = true
+			continue
+		}
+		kept = append(kept, l)
+	}
+	r := runSMTPost(work, o.Name+".qf", strings.Join(kept, "\n"), "", 6, seed, []string{"z3-new", "z3"})
+	if r.Status == "unsat" {
+		return "unsat"
+	}
+	if r.Status == "sat" && !quant {
+		return "sat"
+	}
+	relaxed := r.Status == "sat"
+	r = runSMTPost(work, o.Name, q, "", fullTimeout, seed, []string{"z3-new", "z3"})
+	if r.Status == "sat" || r.Status == "unsat" {
+		return r.Status
+	}
+	if relaxed {
+		return "sat-relaxed"
+	}
+	return "unknown"
 }
